@@ -37,6 +37,8 @@
 #define WX_OPT		1
 #define WX_DEADDELIV	2
 #define WX_INPROG	3
+#define WX_VOID		4
+#define WX_LASTWAIT	5	/* plain interest on a pid whose death was reaped before the registration completed */
 
 #define PX_FD		0
 #define PX_CLOSED	1
@@ -218,6 +220,7 @@ static int wait_reg(struct rthr *th, int id)
 		RO[c].xi[CX_HOW] = 2;
 		o->xi[WX_NEXT] = 0;
 		o->xi[WX_OPT] = 0;
+		o->xi[WX_VOID] = 0;
 		rlog[c].n = 0;
 		spawning_child[th->sim] = c + 1;
 		ret = iv_wait_interest_register_spawn(w, child_fn, NULL);
@@ -233,9 +236,18 @@ static int wait_reg(struct rthr *th, int id)
 			viol("C11.route", "wait obj %d: register_spawn stored pid %d, the forked child is %d", id, (int)w->pid, (int)RO[c].xi[CX_PID]);
 	} else {
 		w->pid = (pid_t)RO[c].xi[CX_PID];
+		/* valid use of a plain interest: its pid does not get recycled behind the application's back */
+		simk_pid_hold(w->pid, 1);
 		o->xi[WX_NEXT] = rlog[c].n;
 		iv_wait_interest_register(w);
 		o->xi[WX_OPT] = rlog[c].n;
+		{
+			int64_t j;
+			o->xi[WX_VOID] = 0;
+			for (j = o->xi[WX_NEXT]; j < o->xi[WX_OPT]; j++)
+				if (status_dead(rlog[c].e[j].status))
+					o->xi[WX_VOID] = 1;	/* the application lost the race: the pid may belong to anybody now */
+		}
 	}
 	o->xi[WX_INPROG] = 0;
 	o->registered = 1;
@@ -253,6 +265,8 @@ static int wait_unreg(struct rthr *th, int id)
 	o->xi[WX_INPROG] = 2;
 	iv_wait_interest_unregister(o->mem);
 	o->xi[WX_INPROG] = 0;
+	if (PL->obj[id].p[0] == 1)
+		simk_pid_hold(((struct iv_wait_interest *)o->mem)->pid, 0);
 	o->gen++;
 	obj_free_mem(id);
 	return 1;
@@ -264,9 +278,13 @@ static void wait_cb(struct rthr *th, int id, int status)
 	int c = (int)PL->obj[id].p[1];
 	int64_t j = o->xi[WX_NEXT];
 
-	(void)th;
 	PROBE[PR_WAIT_CB]++;
-	if (rlog[c].saturated)
+	if (th != NULL) {
+		if (o->xi[WX_LASTWAIT] == th->nwaits + 1)
+			PROBE[PR_KILL_DEAD + 0] += 0, PROBE[PR_MULTI_DUE]++;	/* two statuses in one batch */
+		o->xi[WX_LASTWAIT] = th->nwaits + 1;
+	}
+	if (rlog[c].saturated || o->xi[WX_VOID])
 		return;
 	if (o->xi[WX_DEADDELIV])
 		viol("C11.after_death", "wait obj %d: handler invoked with status 0x%x after the terminating status had been delivered", id, status);
@@ -854,6 +872,14 @@ int ext2_op(struct rthr *th, const struct pop *op)
 		(void)ret;
 		return 1;
 	}
+	case OP_TKILL:
+		/* somebody (any thread, the environment) signals a child directly */
+		if (id < 0 || id >= PL->nobj || PL->obj[id].kind != K_CHILD || !RO[id].xi[CX_HOW] || RO[id].xi[CX_REAPED_DEAD] || RO[id].xi[CX_POPEN])
+			return 0;
+		simk_log(101, OP_TKILL, id * 100 + op->a);
+		simk_env_kill((pid_t)RO[id].xi[CX_PID], (int)op->a);
+		simk_yield();
+		return 1;
 	case OP_PCLOSE:
 		if (th == NULL || id < 0 || id >= PL->nobj || PL->obj[id].kind != K_POPEN || !RO[id].registered ||
 		    PL->obj[id].owner != (int)(th - RT))
@@ -978,7 +1004,7 @@ void ext2_obligations(void)
 			if (!o->registered || !RT[po->owner].in_main)
 				break;
 			from = o->xi[WX_NEXT] > o->xi[WX_OPT] ? o->xi[WX_NEXT] : o->xi[WX_OPT];
-			if (from < rlog[c].n && !o->xi[WX_DEADDELIV] && !rlog[c].saturated)
+			if (from < rlog[c].n && !o->xi[WX_DEADDELIV] && !rlog[c].saturated && !o->xi[WX_VOID])
 				viol("C11.lost", "quiescence: wait obj %d (child obj %d pid %d): %d status change(s) were reaped for its child but only %" PRId64 " reached the handler (next undelivered status 0x%x)",
 				     i, c, (int)RO[c].xi[CX_PID], rlog[c].n, o->xi[WX_NEXT], rlog[c].e[from].status);
 			break;
